@@ -953,6 +953,16 @@ fn resolve_requirements(
     requirements
 }
 
+/// Verification hook: exposes the private requirement computation to the harness.
+#[cfg(all(test, cargo_vet_verif))]
+pub(crate) fn verif_resolve_requirements(
+    graph: &DepGraph<'_>,
+    policy: &Policy,
+    criteria_mapper: &CriteriaMapper,
+) -> Vec<CriteriaSet> {
+    resolve_requirements(graph, policy, criteria_mapper)
+}
+
 fn resolve_audits(
     graph: &DepGraph<'_>,
     store: &Store,
